@@ -27,6 +27,91 @@ pub fn decode_capacity_exceeded(payload: &[u8]) -> Option<&'static str> {
     }
 }
 
+/// the same for an unarmoured buffer handed to `messages::parse` directly
+pub fn raw_decode_capacity_exceeded(raw: &[u8]) -> bool {
+    let ty = match raw.first() {
+        Some(b) => b >> 2,
+        None => return false,
+    };
+    let bytes = raw.len();
+    match ty {
+        6 => bytes > 11 + CAP_BINARY,
+        8 => bytes > 7 + CAP_BINARY,
+        17 => bytes > 15 + CAP_BINARY,
+        12 => (bytes * 8).saturating_sub(72) / 6 > CAP_TEXT,
+        14 => (bytes * 8).saturating_sub(40) / 6 > CAP_TEXT,
+        _ => false,
+    }
+}
+
+/// alloc must answer like std; the no-alloc build too, except that it may answer with an error
+/// where a fixed capacity is exceeded (`capacity`)
+fn api_compare(
+    at: usize,
+    what: &str,
+    std_o: &ApiOutcome,
+    alloc_o: &ApiOutcome,
+    none_o: &ApiOutcome,
+    capacity: bool,
+    input: &[u8],
+) -> Option<Violation> {
+    let fail = |clause: &str, site: String, build: &str, detail: String| Violation {
+        prop: "C18".into(),
+        clause: clause.into(),
+        at,
+        build: build.into(),
+        detail: format!(
+            "{} — {} on {} byte(s) (hex {}…): std {:?} | alloc {:?} | none {:?}",
+            detail,
+            what,
+            input.len(),
+            crate::json::hex(&input[..input.len().min(24)]),
+            short(std_o),
+            short(alloc_o),
+            short(none_o)
+        ),
+        site,
+    };
+    for (b, o) in [("std", std_o), ("alloc", alloc_o), ("none", none_o)] {
+        if let ApiOutcome::Panic(p) = o {
+            return Some(fail(
+                "build-panics",
+                format!("{}:{}", b, super::c01::panic_site(p)),
+                b,
+                format!("the {} build panicked: {}", b, p),
+            ));
+        }
+    }
+    let same = |x: &ApiOutcome, y: &ApiOutcome| match (x, y) {
+        (ApiOutcome::Ok(a), ApiOutcome::Ok(b)) => a == b,
+        (ApiOutcome::Err(_), ApiOutcome::Err(_)) => true,
+        _ => false,
+    };
+    if !same(std_o, alloc_o) {
+        return Some(fail("alloc-differs-from-std", format!("api:{}", what), "alloc", "the alloc build answers differently from the std build".into()));
+    }
+    if !same(std_o, none_o) {
+        match (std_o, none_o) {
+            (ApiOutcome::Ok(_), ApiOutcome::Err(_)) if capacity => {}
+            (ApiOutcome::Ok(_), ApiOutcome::Err(_)) => {
+                return Some(fail("none-rejects-within-capacity", format!("api:{}", what), "none", "the no-alloc build rejects what the std build accepts although no fixed capacity is exceeded".into()))
+            }
+            (ApiOutcome::Err(_), ApiOutcome::Ok(_)) => {
+                return Some(fail("none-accepts-what-std-rejects", format!("api:{}", what), "none", "the no-alloc build accepts what the std build rejects".into()))
+            }
+            _ => {
+                return Some(fail("none-accepts-with-different-content", format!("api:{}", what), "none", "both builds accept but the results differ".into()))
+            }
+        }
+    }
+    None
+}
+
+fn short(o: &ApiOutcome) -> String {
+    let s = format!("{:?}", o);
+    s.chars().take(160).collect()
+}
+
 fn own_payload_len(line: &[u8]) -> Option<usize> {
     let lx = lex(line)?;
     if lx.fields.len() < 6 {
@@ -90,6 +175,42 @@ impl Prop for C18 {
             big_group(&mut rng, &mut ops);
         }
         desc.push_str(&format!(" big_groups={}", bigs));
+        // the payload-level client: the two public payload functions on what is in flight,
+        // and on raw buffers of every type around the no-alloc capacities
+        let api_pm = *rng.pick(&[0u32, 0, 100, 300]);
+        let mut with_api: Vec<Op> = Vec::with_capacity(ops.len() + 8);
+        for op in ops {
+            let bytes = match &op {
+                Op::Line(l) => Some(l.bytes.clone()),
+                _ => None,
+            };
+            with_api.push(op);
+            if let Some(b) = bytes {
+                if rng.permille(api_pm) {
+                    let payload = match lex(&b) {
+                        Some(lx) if lx.fields.len() >= 6 => lx.field(&b, 5).unwrap().to_vec(),
+                        _ => b.clone(),
+                    };
+                    with_api.push(Op::Unarmor { bytes: payload, fill: rng.below(6) as u8 });
+                }
+                if rng.permille(api_pm / 2) {
+                    let ty = *rng.pick(SUPPORTED_TYPES);
+                    let n = match rng.below(4) {
+                        0 => *rng.pick(&[5usize, 6, 9, 11, 12, 15, 16, 21, 22, 23, 24, 25]),
+                        1 => *rng.pick(&[125usize, 126, 127, 129, 130, 131, 133, 134, 135, 136]),
+                        2 => rng.range(0, 60),
+                        _ => rng.range(60, 400),
+                    };
+                    let mut v = rng.bytes(n);
+                    if !v.is_empty() {
+                        v[0] = (ty << 2) | (v[0] & 3);
+                    }
+                    with_api.push(Op::Decode { bytes: v });
+                }
+            }
+        }
+        let ops = with_api;
+        desc.push_str(&format!(" api_pm={}", api_pm));
         Scenario {
             prop: "C18".into(),
             seed,
@@ -133,7 +254,45 @@ impl Prop for C18 {
                     }
                     continue;
                 }
-                _ => continue,
+                Op::Unarmor { bytes, fill } => {
+                    // the public payload functions, the same call in the three builds
+                    let a = api_unarmor(Build::Std, bytes, *fill as usize);
+                    let b = api_unarmor(Build::Alloc, bytes, *fill as usize);
+                    let c = api_unarmor(Build::None, bytes, *fill as usize);
+                    if let Some(st) = st.as_deref_mut() {
+                        st.direct_api_calls += 3;
+                    }
+                    let too_large = (bytes.len() * 6 + 7) / 8 > CAP_PAYLOAD;
+                    if let Some(v) = api_compare(i, "unarmor", &a, &b, &c, too_large, bytes) {
+                        return Some(v);
+                    }
+                    if let Some(raw) = api_unarmor_raw(Build::Std, bytes, *fill as usize) {
+                        let a = api_decode(Build::Std, &raw);
+                        let b = api_decode(Build::Alloc, &raw);
+                        let c = api_decode(Build::None, &raw);
+                        if let Some(st) = st.as_deref_mut() {
+                            st.direct_api_calls += 3;
+                        }
+                        let cap = too_large || raw_decode_capacity_exceeded(&raw);
+                        if let Some(v) = api_compare(i, "messages::parse(unarmor(..))", &a, &b, &c, cap, bytes) {
+                            return Some(v);
+                        }
+                    }
+                    continue;
+                }
+                Op::Decode { bytes } => {
+                    let a = api_decode(Build::Std, bytes);
+                    let b = api_decode(Build::Alloc, bytes);
+                    let c = api_decode(Build::None, bytes);
+                    if let Some(st) = st.as_deref_mut() {
+                        st.direct_api_calls += 3;
+                    }
+                    let cap = raw_decode_capacity_exceeded(bytes);
+                    if let Some(v) = api_compare(i, "messages::parse", &a, &b, &c, cap, bytes) {
+                        return Some(v);
+                    }
+                    continue;
+                }
             };
             let n = l.node.min(nn - 1);
             let own = own_payload_len(&l.bytes);
